@@ -99,6 +99,37 @@ Section C03.
     QueryOut (is_some prov) r aout s =
       Ok {| sr_tree := sr_tree resp; sr_fee := sr_fee resp; sr_amount := rr_ain (sr_tree resp) |}.
   Proof. exact (fun C => b_quote_equals_execution_out PS pq_in pq_out px_in px_out pn_out pacct sender C rate v). Qed.
+
+  (* The same settlement when the swap arrives over IBC (Keeper.SwapIncomingFund, called by the
+     middleware after the route was validated): [sender] is then the swap module account, which
+     holds the incoming amount of the input denom. incoming_fund_amounts: the receiver's net
+     output is exactly amount_out (exact-out) resp. >= min_amount_out (exact-in), at most the
+     incoming amount is spent, and every non-pool account changes by swap + fee + hand-over
+     ([forward_delta]); so the module account keeps nothing of the output denom. *)
+  Theorem C03_incoming_fund_amounts : contract -> forall receiver prov out r amt_in x s s' resp,
+    validate_rec r = true ->
+    swap_incoming_fund PS pq_out px_in px_out pn_in pn_out pacct FIXED rate sender receiver prov out r amt_in x s = Ok (s', resp) ->
+    let t := sr_tree resp in
+    sr_amount resp = rr_aout t - sr_fee resp /\ 0 <= sr_fee resp /\ rr_ain t <= amt_in /\
+    (if out then sr_amount resp = x else rr_ain t = amt_in /\ x <= sr_amount resp) /\
+    (forall addr d, (forall pid, addr <> pacct pid) ->
+       bal (bk s') addr d = bal (bk s) addr d
+         + swap_delta sender prov (r_in r) (r_out r) (rr_ain t) (rr_aout t) (sr_fee resp) addr d
+         + forward_delta sender receiver (r_out r) (sr_amount resp) addr d).
+  Proof. exact (fun C => b_incoming_fund_amounts PS pq_in pq_out px_in px_out pn_in pn_out pacct sender C rate). Qed.
+
+  (* incoming_only_input: holding only the incoming input, the module account never meets an
+     insufficient-funds failure in the hops, the fee transfer or the hand-over: every settlement
+     step is funded by the steps before it *)
+  Theorem C03_incoming_only_input : contract -> forall receiver prov (out : bool) r amt_in x s e,
+    validate_rec r = true -> NoDup (pools_of r) -> width_ok r = true -> 0 <= amt_in -> 0 < x ->
+    funded PS sender s -> solvent_in PS px_in pacct (pools_of r) s -> solvent_out PS px_out pacct (pools_of r) s ->
+    (if out then exists t fee, calc_out PS pq_out FIXED rate (is_some prov) r x s = Ok (t, fee) /\
+                               rr_ain t <= bal (bk s) sender (r_in r)
+     else amt_in <= bal (bk s) sender (r_in r)) ->
+    swap_incoming_fund PS pq_out px_in px_out pn_in pn_out pacct FIXED rate sender receiver prov out r amt_in x s = Err e ->
+    e <> E_INSUFFICIENT.
+  Proof. exact (fun C => b_incoming_only_input PS pq_in pq_out px_in px_out pn_in pn_out pacct sender C rate). Qed.
 End C03.
 Print Assumptions C03_exact_in_amounts.
 Print Assumptions C03_exact_in_sender.
@@ -108,6 +139,8 @@ Print Assumptions C03_only_input_needed_in.
 Print Assumptions C03_only_input_needed_out.
 Print Assumptions C03_quote_equals_execution_in.
 Print Assumptions C03_quote_equals_execution_out.
+Print Assumptions C03_incoming_fund_amounts.
+Print Assumptions C03_incoming_only_input.
 
 (* parallel_split_sums: positive weights, a non-negative exact amount: the branch amounts are
    >= 0, sum to the exact amount, one per branch. *)
@@ -161,3 +194,10 @@ Proof.
   split; [exact toy_contract|]. split; [exact toy_funded|]. split; [apply toy_solvent_in|].
   split; [apply toy_solvent_out|]. exact nested_example_runs.
 Qed.
+
+Example C03_incoming_nonvacuous :
+  exists s' resp, swap_incoming_fund unit toy_q toy_x toy_x toy_n toy_n toy_pacct FIXED 10000000000000000 1 7 (Some 5) true
+                    nested_example 1000 500 toy_st = Ok (s', resp) /\
+    sr_amount resp = 500 /\ bal (bk s') 7 3 = bal (bk toy_st) 7 3 + 500 /\ bal (bk s') 1 3 = 0 /\
+    bal (bk s') 1 1 = 1000 - rr_ain (sr_tree resp).
+Proof. exact incoming_example_runs. Qed.
